@@ -25,9 +25,9 @@ THEOREM_FILES = ["C17_splits.v", "C17_proj.v", "C17_history.v", "C17_history_dam
 RELATED = {
     "C17_splits.v": ("partition:", "law:"),
     "C17_proj.v": ("eig:2d", "nonfinite:2d", "eig:3d:generic", "proj:2d"),
-    "C17_history.v": ("history-", "damage-decreases:BoundConstrain", "damage-without-load"),
-    "C17_history_damage.v": ("damage-decreases:HistoryDamage", "damage-not-stored:HistoryDamage"),
-    "Gen_Splits.v": (),
+    "C17_history.v": ("history-", "damage-decreases:BoundConstrain", "damage-without-load", "damage-imposed-lost:BoundConstrain"),
+    "C17_history_damage.v": ("damage-decreases:HistoryDamage", "damage-not-stored:HistoryDamage", "damage-imposed-lost:HistoryDamage"),
+    "Gen_Splits.v": ("history-rule-mismatch", "history-decreases", "damage-imposed-lost", "damage-decreases"),
 }
 
 REPLAY_SPLIT = r'''
